@@ -143,6 +143,8 @@ def collect(index, results, per_case):
             lib = rs[pos]
             pos += 1
             d["lib_" + bname] = lib_outcome(lib)
+            if "capi_id" in lib and lib.get("errno") == 18 and "openat2 to abort" in (lib.get("msg") or ""):
+                d["lib_" + bname] = ("err", "SAFETY")      # the C ABI reports the 16-EAGAIN safety violation as EXDEV: same noise rule
             d["raw_" + bname] = lib
             if bname == "kernel":
                 d["kernel"] = kernel_as_outcome(c["op"], rs[pos], bodies)
